@@ -3,7 +3,7 @@
    rename temporary -> final; the temporary entry is the final name plus tmp_suffix; and the
    model's treatment of a not-exist error in the compressed retrieve is the source's. *)
 From Coq Require Import String.
-From PlzV Require Import Base.Harness Model.C12 Proof.C12 Gen.C12Store.
+From PlzV Require Import Base.Harness Model.C12 Proof.C12 Proof.C12_Dirty Gen.C12Store.
 
 Definition loc (x : string) : path :=
   if String.eqb x "final" then [kK] else [app (s "K") (s tmp_suffix)].
@@ -71,3 +71,79 @@ Proof. reflexivity. Qed.
 Lemma plain_fault_follows_source :
   returns plain_link_error_branch = false /\ removes_tmp plain_link_error_branch = false.
 Proof. split; reflexivity. Qed.
+
+(* ---- the retrieve side: ensureRetrieveReady as gotrans reads it (Gen.C12Store.retrieve_ready) ---- *)
+
+Definition conv (o : C12Store.rop) : PlzV.Model.C12.rop :=
+  match o with OMkdirAllParent => OMkdirParent | ORemoveAllFull => ORemoveAll end.
+
+(* the operations one simple statement runs, and whether the function returns after it (an operation
+   that fails makes every recognised statement return the error, so only the all-succeed trace matters) *)
+Definition simple_ops (x : rsimple) : list C12Store.rop * bool :=
+  match x with
+  | RTry o => ([o], false)
+  | RReturnOp o => ([o], true)
+  | RReturnOk => ([], true)
+  end.
+
+Fixpoint simples_trace (l : list rsimple) : list C12Store.rop * bool :=
+  match l with
+  | [] => ([], false)
+  | x :: r =>
+      let (o, ret) := simple_ops x in
+      if ret then (o, true) else let (o2, ret2) := simples_trace r in ((o ++ o2)%list, ret2)
+  end.
+
+(* the operations ensureRetrieveReady performs on a path that contains a '/' (nest = true) or not *)
+Fixpoint ready_trace (nest : bool) (l : list rstmt) : list C12Store.rop :=
+  match l with
+  | [] => []
+  | RS x :: r => let (o, ret) := simple_ops x in if ret then o else (o ++ ready_trace nest r)%list
+  | RIfNested body :: r =>
+      if nest then let (o, ret) := simples_trace body in if ret then o else (o ++ ready_trace nest r)%list
+      else ready_trace nest r
+  end.
+
+Definition gen_opsN : list PlzV.Model.C12.rop := map conv (ready_trace true retrieve_ready).
+Definition gen_opsT : list PlzV.Model.C12.rop := map conv (ready_trace false retrieve_ready).
+
+(* the model's ensureRetrieveReady (Model.C12 src_opsN / src_opsT, used by `check`) is the source's:
+   MkdirAll of the parent for a nested path, and ALWAYS the RemoveAll of the destination (seeded
+   mutation r2-m2 returns before the removal for nested paths: this lemma then fails); the model's
+   write without truncation is the source's open flags *)
+Lemma ready_follows_source :
+  gen_opsN = src_opsN /\ gen_opsT = src_opsT /\ compressed_write_truncates = src_trunc.
+Proof. repeat split; reflexivity. Qed.
+
+(* the uncompressed loop: a missing entry for an output is `found = plain_found_with_error` together
+   with a not-exist error, which retrieve() lets through (seeded mutation r2-m3 makes it true: a hit) *)
+Lemma plain_notexist_follows_source st o r out :
+  lookup [kK; o] st = None ->
+  retr_plain st (o :: r) out
+  = if plain_found_with_error && notexist_error_keeps_found then Hit (drop_sub [o] out) else Miss.
+Proof. intros H. cbn [retr_plain]. rewrite H. reflexivity. Qed.
+
+Lemma plain_into_notexist_follows_source st p r out :
+  lookup (kK :: p) st = None ->
+  retr_into_plain gen_opsN gen_opsT st (p :: r) out
+  = if plain_found_with_error && notexist_error_keeps_found then Some (ready (pick p gen_opsN gen_opsT) p out) else None.
+Proof. intros H. cbn [retr_into_plain]. rewrite H. reflexivity. Qed.
+
+(* the dirty-retrieve theorem, about the source's ensureRetrieveReady and open flags *)
+Lemma dirty_holds_gen c st outs T out0 :
+  outs <> [] -> indepb outs = true -> trees_okb T outs = true -> entry_holds c st outs T ->
+  exists r, retrieve_into c compressed_write_truncates gen_opsN gen_opsT st outs out0 = Some r
+    /\ (forall p, In p outs -> sub p r = sub p T)
+    /\ (forall q, Forall (fun p => incomp p q) outs -> sub q r = sub q out0).
+Proof.
+  destruct ready_follows_source as [-> [-> _]]. apply dirty_holds.
+Qed.
+
+Lemma dirty_roundtrip_gen c order st outs src out0 :
+  inputs_ok c st outs src -> trees_okb src (tops outs) = true ->
+  exists r, retrieve_into c compressed_write_truncates gen_opsN gen_opsT (run (store_steps c order st outs src) st) (tops outs) out0 = Some r
+    /\ (forall o, In o outs -> sub [o] r = sub [o] src)
+    /\ (forall q, Forall (fun o => incomp [o] q) outs -> sub q r = sub q out0).
+Proof.
+  destruct ready_follows_source as [-> [-> _]]. apply dirty_roundtrip.
+Qed.
